@@ -147,11 +147,16 @@ func unwrapErr(fr *frame, e iface) []iface {
 	return nil
 }
 
+func isVMType(t types.Type) bool {
+	n, ok := t.(*types.Named)
+	return ok && n.Obj().Pkg() == reflectTypesPackage
+}
+
 func errorsIs(fr *frame, err, target iface) bool {
 	if err.t == nil || target.t == nil {
 		return err.t == nil && target.t == nil
 	}
-	comparable := types.Comparable(target.t)
+	comparable := isVMType(target.t) || types.Comparable(target.t)
 	var walk func(e iface) bool
 	walk = func(e iface) bool {
 		for e.t != nil {
@@ -874,12 +879,21 @@ func init() {
 
 		// ---------------- sync.Once / WaitGroup (harness side)
 		"(*sync.Once).Do": func(fr *frame, a []value) value {
-			p := a[0].(*value)
-			m := fr.i.mutex(p)
-			if m.readers == -1 {
+			// readers: 0 = not started, -2 = running, -1 = done
+			m := fr.i.mutex(a[0].(*value))
+			switch m.readers {
+			case -1:
+				return nil
+			case -2:
+				if m.writer == fr.i.sched.current {
+					panic(vmPathEnd{"deadlock"}) // Do called from within f: deadlocks natively
+				}
+				fr.i.sched.park(func() bool { return m.readers == -1 }, "sync.Once")
 				return nil
 			}
-			m.readers = -1
+			m.readers = -2
+			m.writer = fr.i.sched.current
+			defer func() { m.readers = -1; m.writer = nil }()
 			call(fr.i, fr, token.NoPos, a[1], nil)
 			return nil
 		},
